@@ -90,7 +90,9 @@ class Proj:
             self.strs.add(x) if len(x) < 40 else None
             return {"t": "str", "s": sid(x)}
         if isinstance(x, io.BytesIO):
-            return {"t": "bytesio", "b": self._b(x.getvalue())}
+            n, at = len(x.getvalue()), x.tell()
+            return {"t": "bytesio", "b": self._b(x.getvalue()),
+                    "pos": "start" if at == 0 else ("end" if at >= n else "mid")}
         if isinstance(x, (bytes, bytearray)):
             return {"t": "bytes", "b": self._b(bytes(x))}
         if dataclasses.is_dataclass(x) and not isinstance(x, type):
@@ -280,7 +282,8 @@ class Builder:
         if tt == "bytes":
             return bytes.fromhex(t["b"])
         if tt == "bytesio":
-            return io.BytesIO(bytes.fromhex(t["b"]))
+            buf = io.BytesIO(bytes.fromhex(t["b"]))
+            return seek_to(buf, t.get("pos", "start"))
         if tt == "list":
             of = h["of"] if k == "list" else {"k": "any"}
             return [self.value(x, of, depth, salt + i + 1) for i, x in enumerate(t["xs"])]
@@ -324,6 +327,44 @@ class Builder:
             if init and g["k"] != "dflt":
                 n = max(n, len(self.tpl[hkey(g)]))
         return n
+
+
+# ------------------------------------------------------------------ stream positions
+def seek_to(buf: io.BytesIO, where: str) -> io.BytesIO:
+    n = len(buf.getvalue())
+    buf.seek({"start": 0, "mid": n // 2, "end": n}[where])
+    return buf
+
+
+def streams(x, seen=None):
+    """Every BytesIO reachable from x through dataclass fields, lists, tuples, sets and dicts."""
+    seen = set() if seen is None else seen
+    if id(x) in seen:
+        return
+    if isinstance(x, io.BytesIO):
+        seen.add(id(x))
+        yield x
+    elif dataclasses.is_dataclass(x) and not isinstance(x, type):
+        seen.add(id(x))
+        for f in dataclasses.fields(x):
+            yield from streams(getattr(x, f.name), seen)
+    elif isinstance(x, dict):
+        for v in x.values():
+            yield from streams(v, seen)
+    elif isinstance(x, (list, tuple, set)):
+        for v in x:
+            yield from streams(v, seen)
+
+
+def set_positions(x, where: str) -> int:
+    """Leave every reachable non-empty stream at start / mid / end, as a caller who looked at the
+    payload (img.get_bytes().read(), att.data.read(n)) would; returns the number of such streams."""
+    n = 0
+    for b in streams(x):
+        if len(b.getvalue()) > 1:
+            seek_to(b, where)
+            n += 1
+    return n
 
 
 # ------------------------------------------------------------------ execution
